@@ -960,7 +960,31 @@ fn dec(rng: &mut Rng, lo_permille: u64, hi_permille: u64, fine: bool) -> String 
     }
 }
 
+/// a percentage that puts the requirement exactly on (or a hair above) an achievable tally: k / total to nine
+/// decimals, optionally followed by digits beyond the ninth
+fn dec_on_tally(rng: &mut Rng, total: u64) -> Option<String> {
+    if total < 2 || total > 1_000_000 {
+        return None;
+    }
+    let k = rng.range((total + 1) / 2, total);
+    if k == total {
+        return Some("1".to_string());
+    }
+    let nine = (k as u128 * 1_000_000_000) / total as u128; // floor(k/total * 1e9)
+    let tail = *rng.pick(&[0u64, 0, 1, 100_000_000, 500_000_000, 999_999_999]);
+    Some(format!("0.{:09}{:09}", nine, tail))
+}
+
 fn gen_threshold(rng: &mut Rng, total_hint: u64, fine: bool) -> Value {
+    if fine && rng.chance(1, 3) {
+        if let Some(p) = dec_on_tally(rng, total_hint) {
+            return if rng.chance(1, 2) {
+                json!({"absolute_percentage":{"percentage": p}})
+            } else {
+                json!({"threshold_quorum":{"threshold": p, "quorum": *rng.pick(&["0.001", "0.5", "1"])}})
+            };
+        }
+    }
     match rng.below(3) {
         0 => {
             let w = match rng.below(6) {
@@ -1062,9 +1086,17 @@ impl World for WorldC {
                 let d = members[0].clone();
                 members.push(d);
             }
+            if rng.chance(1, 25) && members.len() >= 2 {
+                // weights that are each a legal u64 and only overflow together: whatever instantiate accepts
+                let big = *rng.pick(&[1u64 << 63, (1u64 << 63) + 1, u64::MAX]);
+                for m in members.iter_mut().take(2) {
+                    m["weight"] = json!(big);
+                }
+                total_hint = u64::MAX;
+            }
             for i in 0..bulk_members {
                 members.push(json!({"addr": addr_of(&format!("bulk{}", i)), "weight": 1 + (i as u64 % 3)}));
-                total_hint += 1 + (i as u64 % 3);
+                total_hint = total_hint.saturating_add(1 + (i as u64 % 3));
             }
             json!({"admin": admin_name.as_ref().map(|a| a.to_string()), "members": members})
         } else {
@@ -1089,6 +1121,13 @@ impl World for WorldC {
                 let a = tpw.max(1).saturating_mul(rng.range(1, 5) as u128).max(min_bond);
                 total_hint = total_hint.saturating_add(rng.range(1, 5));
                 initial_bonds.push((u.clone(), a.to_string()));
+            }
+            // C20: a member list long enough to need several pages — many small stakers (native staking only)
+            if prop == "C20" && group_kind == "stake_native" && tpw <= 1000 {
+                for i in 0..bulk_members {
+                    let a = tpw.max(1).saturating_mul(1 + (i as u128 % 3)).max(min_bond);
+                    initial_bonds.push((format!("bulk{}", i), a.to_string()));
+                }
             }
             json!({
                 "denom": if group_kind == "stake_native" { json!({"native": STAKE_DENOM}) } else { json!({"cw20": "TOKEN"}) },
@@ -1324,6 +1363,9 @@ impl World for WorldC {
         if is_stake {
             for (u, a) in cfg.initial_bonds.clone() {
                 let ua = addr_of(&u);
+                if u.starts_with("bulk") {
+                    w.chain.mint(&ua, vec![Coin::new(a.parse::<u128>().unwrap_or(0), STAKE_DENOM)]);
+                }
                 let step = if stake_cw20 {
                     Step::Tx {
                         sender: ua,
